@@ -9,11 +9,16 @@ CFG = dict(
          "transactions) mutated at every truncation point / boundary byte values / off-by-one length edits / "
          "insertions, plus small-biased random strings; a case is non-trivial when the input is non-empty (for "
          "headers: at least the minimum header length, for ReplicateTx: longer than the length prefix); distinct by "
-         "(entry point, input bytes, outcome)",
+         "(entry point, input bytes, outcome). Also modelled: appendable.NewMetadata + Get/GetInt/GetBool on valid, "
+         "mutated and hand-made metadata blocks. Probes without a model (falsifier only: panic, no return within 60 s, "
+         "allocation far beyond the file size): the pgsql Parse*Msg functions on structured payloads (strings with and "
+         "without terminator, negative / huge counts and lengths, truncations), sql.ParseSQLString on mutated SQL, "
+         "singleapp.Open on files with corrupted headers",
     trusted_base=COMMON_TB + [
-        "modelled: TxMetadata.ReadFrom, KVMetadata.unsafeReadFrom, TxHeader.ReadFrom, ReplicateTx framing "
-        "(embedded/store); NOT modelled: goyacc SQL parser, pgsql wire messages, stream chunk parsers, protobuf "
-        "(these are outside the theorems of this check)",
+        "modelled (theorems): TxMetadata.ReadFrom, KVMetadata.unsafeReadFrom, TxHeader.ReadFrom, ReplicateTx framing "
+        "(embedded/store), appendable Metadata.ReadFrom and its typed getters; NOT modelled, probed by the falsifier "
+        "only: goyacc SQL parser, pgsql wire message parsers, singleapp.Open header handling; not covered at all: "
+        "pkg/stream chunk parsers, protobuf unmarshalling, gRPC framing",
         "Go slices handed to the decoders have cap == len (harness clamps them), as the model's sub_ assumes",
     ],
     assumptions=["each Go slice expression is transliterated by hand into a checked primitive (at_/from_/sub_/uint_)"],
